@@ -85,12 +85,13 @@ class RobustModel(nn.Module):
             assert len(R)==len(weight)
             weight_diag = []
             for w, r in zip(weight, R):
-                w = w.view(*w.shape, 1, 1) if r.shape[-1] == 1 else w
-                if w.numel() // (w.shape[-2] * w.shape[-1]) != r.numel() // r.shape[-1]:
-                    # broadcast the batch dimensions of the weight against those of the residual
-                    batch = torch.broadcast_shapes(w.shape[:-2], r.shape[:-1])
-                    w = w.expand(*batch, *w.shape[-2:])
-                weight_diag += list(w.reshape(-1, w.shape[-2], w.shape[-1]).unbind(0))
+                if r.shape[-1] == 1 and w.shape[-2:] != (1, 1): # scalar weights of 1-dim residuals
+                    w = w.squeeze(-1) if w.ndim == r.ndim and w.shape[-1] == 1 else w
+                    w = w.view(*w.shape, 1, 1)
+                # broadcast the batch dimensions of the weight against those of the residual
+                batch = torch.broadcast_shapes(w.shape[:-2], r.shape[:-1])
+                ws = w.expand(*batch, *w.shape[-2:]).reshape(-1, w.shape[-2], w.shape[-1])
+                weight_diag += list(ws.unbind(0))
             weight_diag = torch.block_diag(*weight_diag)
         R = [r.reshape(-1) for r in R]
         J = torch.cat(J) if isinstance(J, (tuple, list)) else J
